@@ -33,14 +33,16 @@ func init() {
 			"R3": "every CEA: identity from settings, host addresses, request's ids",
 			"R4": "metadata = FromCER(parsed CER); success CEA advertises every supported application",
 			"R5": "each failure cause is reported only on the edge where it applies",
+			"R6": "every advertised application is examined (no early exit from the loops that feed the collector) and judged on its own (the validation keeps no memory but the result list)",
 		},
-		MinInstances: map[string]int{"R1": 2, "R2": 4, "R3": 8, "R4": 2, "R5": 3},
+		MinInstances: map[string]int{"R1": 2, "R2": 4, "R3": 8, "R4": 2, "R5": 3, "R6": 2},
 		Assumptions:  []string{"the application-matching predicate itself (smparser.Application.Parse) is out of scope"},
 	})
 }
 
 func runC11(c *Ctx) {
 	r := c.R
+	c.c11Applications()
 	// CER handler closure
 	var h *ssa.Function
 	var parse *ssa.Call
@@ -1260,4 +1262,148 @@ func trueRels(h *ssa.Function) []rel {
 		return nil
 	}
 	return out
+}
+
+// c11Applications: R6 — "the shared application ids become the connection's metadata" and "accepted exactly when …
+// at least one application the local dictionary supports with the same type". The collector is the method of
+// smparser.Application that appends to the result list (field of type []uint32). Two structural necessary
+// conditions on the methods that lead to it: (a) a loop that feeds application AVPs to the collector has no exit
+// but exhaustion — leaving at the first hit keeps later shared ids out of the metadata; (b) the methods keep no
+// memory from one AVP to the next other than the result list — a verdict recalled for "the same id" is the
+// verdict of another AVP (another type) and makes acceptance depend on the order of the AVPs.
+func (c *Ctx) c11Applications() {
+	r := c.R
+	appT := c.P.NamedType("diam/sm/smparser", "Application")
+	if appT == nil {
+		r.Undecided("R6", "role:smparser.Application", "-", "type smparser.Application not found")
+		return
+	}
+	st := structOf(appT)
+	listFld := ""
+	for i := 0; i < st.NumFields(); i++ {
+		if sl, ok := st.Field(i).Type().Underlying().(*types.Slice); ok {
+			if b, ok := sl.Elem().Underlying().(*types.Basic); ok && b.Kind() == types.Uint32 {
+				listFld = st.Field(i).Name()
+			}
+		}
+	}
+	if listFld == "" {
+		r.Undecided("R6", "role:application-id-list", "-", "smparser.Application has no []uint32 result list")
+		return
+	}
+	isAppMethod := func(f *ssa.Function) bool {
+		return f.Signature.Recv() != nil && flow.NamedOf(f.Signature.Recv().Type()) != nil && flow.NamedOf(f.Signature.Recv().Type()).Obj() == appT.Obj()
+	}
+	var methods []*ssa.Function
+	collects := map[*ssa.Function]bool{}
+	for _, f := range c.P.LibraryFuncs() {
+		if !isAppMethod(f) {
+			continue
+		}
+		methods = append(methods, f)
+		flow.Instrs(f, func(in ssa.Instruction) {
+			if st, ok := in.(*ssa.Store); ok {
+				if tn, fld, _, ok := flow.FieldOf(st.Addr); ok && tn == appT.Obj().Name() && fld == listFld {
+					collects[f] = true
+				}
+			}
+		})
+	}
+	if len(collects) == 0 {
+		r.Undecided("R6", "role:collector", "-", "no method of smparser.Application stores to its id list")
+		return
+	}
+	// chain: methods from which a collector is reached by plain calls
+	chain := map[*ssa.Function]bool{}
+	for f := range collects {
+		chain[f] = true
+	}
+	for changed := true; changed; {
+		changed = false
+		for _, f := range methods {
+			if chain[f] {
+				continue
+			}
+			for _, ci := range flow.CallInstrs(f) {
+				if g := flow.StaticCallee(ci); g != nil && chain[g] {
+					chain[f] = true
+					changed = true
+				}
+			}
+		}
+	}
+	// the region also holds the helpers those methods call (bookkeeping split out of the collector)
+	up := map[*ssa.Function]bool{}
+	for f := range chain {
+		up[f] = true
+	}
+	for changed := true; changed; {
+		changed = false
+		for _, f := range methods {
+			if !chain[f] {
+				continue
+			}
+			for _, ci := range flow.CallInstrs(f) {
+				if g := flow.StaticCallee(ci); g != nil && isAppMethod(g) && !chain[g] {
+					chain[g] = true
+					changed = true
+				}
+			}
+		}
+	}
+	sort.Slice(methods, func(i, j int) bool { return fname(methods[i]) < fname(methods[j]) })
+	nLoops := 0
+	for _, f := range methods {
+		if !chain[f] {
+			continue
+		}
+		loops := flow.Loops(f)
+		seen := map[*flow.Loop]bool{}
+		for _, ci := range flow.CallInstrs(f) {
+			g := flow.StaticCallee(ci)
+			if g == nil || !up[g] {
+				continue
+			}
+			l := flow.InnermostLoop(loops, ci)
+			if l == nil || seen[l] {
+				continue
+			}
+			seen[l] = true
+			nLoops++
+			key := fmt.Sprintf("%s:loop-feeding-%s-runs-to-the-end", fname(f), g.Name())
+			var early ssa.Instruction
+			for b := range l.Blocks {
+				if b == l.Head {
+					continue
+				}
+				for _, s := range b.Succs {
+					if !l.Blocks[s] && early == nil {
+						early = b.Instrs[len(b.Instrs)-1]
+					}
+				}
+			}
+			if early != nil {
+				r.Fail("R6", key, c.pos(early), "the loop that hands the advertised applications to "+g.Name()+" can be left before every one was examined: applications after that point are never checked, so shared ids are missing from the connection's metadata (or a later acceptable application is never found)")
+			} else {
+				r.Ok("R6", key, c.pos(ci), "the loop has no exit but exhaustion: every advertised application reaches "+g.Name())
+			}
+		}
+		// (b) no memory but the result list
+		flow.Instrs(f, func(in ssa.Instruction) {
+			switch x := in.(type) {
+			case *ssa.Store:
+				if tn, fld, _, ok := flow.FieldOf(x.Addr); ok && tn == appT.Obj().Name() && fld != listFld {
+					r.Fail("R6", fname(f)+":keeps-state-in-"+fld, c.pos(x), "the application check stores into Application."+fld+": a verdict or value remembered from one AVP is applied to another (same id, other type or position), so acceptance depends on the order in which the peer lists its applications")
+				}
+			case *ssa.MapUpdate:
+				if tn, fld, _, ok := flow.FieldOf(flow.Peel(x.Map)); ok && tn == appT.Obj().Name() {
+					r.Fail("R6", fname(f)+":keeps-state-in-"+fld, c.pos(x), "the application check updates the map Application."+fld+": a verdict remembered from one AVP is applied to another (same id, other type or position), so acceptance depends on the order in which the peer lists its applications")
+				}
+			}
+		})
+	}
+	if nLoops == 0 {
+		r.Undecided("R6", "role:application-loops", "-", "no loop feeds application AVPs to the collector")
+	}
+	r.Ok("R6", "Application:collector-chain", "-", fmt.Sprintf("%d methods lead to the collector; stores to Application fields on that chain go to %s only", len(chain), listFld))
 }
